@@ -40,7 +40,7 @@ pub fn generate(tier: &str, rng: &mut Rng) -> Vec<Spec> {
     // candidates and must drop exactly the dominated ones), plus triangle waves
     for n in [64usize, 100, 128] { for kind in ["max", "min", "bounds"] { for j in 0..(if thorough { 4 } else { 2 }) {
         let up = n as i64 + 60 + 7 * j as i64; let back = [161i64, 301, 97, 33][j % 4].min(2 * up - 3);
-        let mut xs: Vec<i64> = (1..=up).map(|k| 2 * k).collect(); xs.push(back); xs.extend(std::iter::repeat(back - 1).take(n + 5));
+        let mut xs: Vec<i64> = (1..=up).map(|k| 2 * k).collect(); xs.push(back); xs.extend(std::iter::repeat(back).take(n + 5));
         let sign = if kind == "max" { -1 } else { 1 };
         let xs: Vec<i64> = xs.iter().map(|x| sign * x).collect();
         v.push(Spec::new(kind).with("N", n).with("pre", "").with("xs", join(&xs)));
